@@ -64,7 +64,7 @@ func ProfileFor(name string) *Profile {
 	for _, f := range allFeatures {
 		p.Allow[f] = true
 	}
-	p.Allow["tail_yield"], p.Allow["nested_yield"], p.Allow["selfstatus"], p.Allow["yield_boundary"] = false, false, false, false
+	p.Allow["yield_boundary"] = false
 	w := p.Weights
 	w["decl"], w["assign"], w["emit"], w["if"], w["loop"], w["do"], w["func"], w["call"] = 6, 6, 6, 3, 4, 1, 5, 5
 	w["pcall"], w["xpcall"], w["error"], w["rtfault"], w["co"], w["meta"], w["sort"], w["gsub"], w["fenv"], w["host"], w["clobber"], w["goto"] = 4, 3, 2, 2, 4, 2, 1, 1, 1, 2, 2, 2
